@@ -154,7 +154,8 @@ def gen_cat_spec(seed):
         rs = dict(its=its, rtag=r + 1)
         if grow and spec['grouped'] and r < nres // 2:
             rs['vars'] = [v for v in spec['vars'] if v != 'tau']
-        if rng.random() < 0.6 or not its[nlev - 1]:
+        dead = bool(not its[nlev - 1] and rng.random() < 0.4)   # the job died at start-up: nothing written
+        if (rng.random() < 0.6 or not its[nlev - 1]) and not dead:
             pool = list(range(start, start + length * bs + 1, bs))
             rs['checkpoints'] = sorted({int(v) for v in rng.choice(pool, int(rng.integers(1, 3)))})
             rs['chk_proc'] = bool(rng.random() < 0.4)
